@@ -135,6 +135,16 @@ def classify_all_ways(s, doc, variant, cfg, tmpdir, in_claim=True):
     ways = [('str', lambda: MosFile.from_string(doc)),
             ('bytes', lambda: MosFile.from_string(doc.encode('utf-8'))),
             ('file', lambda: MosFile.from_file(path))]
+    if root is not None and not doc.lstrip().startswith('<?xml'):
+        # the same document as declared ISO-8859-1 and UTF-16 bytes (bytes and file sources)
+        l1 = ('<?xml version="1.0" encoding="ISO-8859-1"?>\n' + doc).encode('latin-1', 'xmlcharrefreplace')
+        u16 = ('<?xml version="1.0" encoding="UTF-16"?>\n' + doc).encode('utf-16')
+        p16 = os.path.join(tmpdir, 'd16.mos.xml')
+        with open(p16, 'wb') as f:
+            f.write(u16)
+        ways += [('bytes-latin1', lambda: MosFile.from_string(l1)),
+                 ('bytes-utf16', lambda: MosFile.from_string(u16)),
+                 ('file-utf16', lambda: MosFile.from_file(p16))]
     from .. import events as EV
     for filt in ('default', 'error'):
         for wname, fn in ways:
